@@ -1,4 +1,5 @@
 import Ark.Model.Bytes
+import Ark.Model.BytesSqrt
 import Ark.Model.Proto
 /-
   Driver dispatch for C09 (round trip / size / uniqueness) and C10 (malformed input):
@@ -305,7 +306,8 @@ structure Kit (F : Type) where
 def kitFp (c : FpCfg) : Kit (Fp c.p) where
   c := c
   k := 1
-  codec := fpCodec c
+  -- `sqrt` through the C11 model (`Ark.Model.BytesSqrt`): the dictionary the theorems of C09b are about
+  codec := fpCodecV c
   toCoeffs x := [x.val]
   ofCoeffs cs := match cs with | [x] => some ⟨x⟩ | _ => none
   swKills a b r x y := (AffPt.smul (p := c.p) (E := ⟨a, b⟩) r ⟨some (x, y)⟩).pt.isNone
@@ -326,7 +328,8 @@ def parseG2 {p β : Nat} (a : Fp2 p β) (s : String) : Option (SWAff (Fp2 p β) 
 def kitFp2 (c : FpCfg) (β : Nat) : Kit (Fp2 c.p β) where
   c := c
   k := 2
-  codec := fp2Codec c β
+  -- `sqrt` = C11's `QuadExtField::sqrt` (`Ark.Model.BytesSqrt`)
+  codec := fp2CodecV c β
   toCoeffs x := [x.c0.val, x.c1.val]
   ofCoeffs cs := match cs with | [a, b] => some ⟨⟨a⟩, ⟨b⟩⟩ | _ => none
   swKills a _ r x y := (gSmul a r (some (x, y))).isNone
